@@ -253,6 +253,7 @@ Mon(name, ok) == ok \/ PrintT(<<"PV", tid, l - 1, name>>)
 Monitor ==
     /\ Mon("FailStopSafe", FailStopSafe)
     /\ Mon("CauseFaithful", CauseFaithful)
+    /\ Mon("InterruptEndsQuietly", InterruptEndsQuietly)
     /\ Mon("FailStopObserved", FailStopObserved)
     /\ Mon("CleanupBeforeEnd", CleanupBeforeEnd)
     /\ Mon("NoStepAfterEnd", NoStepAfterEnd)
